@@ -35,6 +35,7 @@ func (c *Conversation) processAKE(msgType byte, msg []byte) (toSend []messageWit
 
 	var toSendSingle messageWithHeader
 	var toSendExtra []messageWithHeader
+	previous := c.ake.state.identity()
 
 	switch msgType {
 	case msgTypeDHCommit:
@@ -55,7 +56,10 @@ func (c *Conversation) processAKE(msgType byte, msg []byte) (toSend []messageWit
 		err = newOtrErrorf("unknown message type 0x%X", msgType)
 	}
 
-	c.ake.lastStateChange = time.Now()
+	// a message that was rejected or ignored does not count as progress of the key exchange
+	if err == nil && (toSendSingle != nil || c.ake.state.identity() != previous) {
+		c.ake.lastStateChange = time.Now()
+	}
 
 	messages := append([]messageWithHeader{toSendSingle}, toSendExtra...)
 	toSend = compactMessagesWithHeader(messages...)
